@@ -43,7 +43,10 @@ T = {
     "path.find_path": [("seg", Tmpl(b"/usr/", 3, b"/file"), "both", 300)],
     "path.find_windows_path": [("seg", Tmpl(b"c:\\temp\\", 2, b"o\\file.txt"), "both", 300), ("unc", Tmpl(b"\\\\ho", 1, b"\\share\\file.txt"), "both", 300), ("unc2", Tmpl(b"\\\\ho", 2, b"\\share\\file.txt"), "thorough", 1500),
                                ("dots", Tmpl(b"c:\\aaa\\", 2, b"\\bbb\\file.exe"), "both", 300)],
-    "pe_file.find_pe_files": [("mz", Tmpl(b"MZ", 3), "both", 300)],
+    "pe_file.find_pe_files": [("mz", Tmpl(b"MZ", 3), "both", 300),
+                              # 'MZ' + 56..62 further bytes: the window around the e_lfanew field (offset 0x3C, 4 bytes)
+                              ("hdr59", Tmpl(1, b"MZ" + b"\0" * 56, 3), "both", 300), ("hdr61", Tmpl(b"MZ" + b"\0" * 58, 3), "both", 300),
+                              ("hdr62", Tmpl(b"MZ" + b"\0" * 58, 1, b"\0\0\0"), "both", 300), ("hdr64", Tmpl(b"MZ" + b"\0" * 58, 1, b"\0\0\0PE\0\0"), "both", 300)],
     "powershell.find_powershell_bytes": [("free", Tmpl(b"0x41,", 3), "both", 300)],
     "replace.find_replace": [("a", Tmpl(b"'a", 2, b"'.replace('", 1, b"','", 1, b"')"), "both", 300)],
     "replace.find_powershell_replace": [("a", Tmpl(b"'a", 2, b"' -replace '", 1, b"','", 1, b"'"), "both", 300)],
@@ -71,9 +74,11 @@ def _mk(decname, tag, tmpl, tier, timeout):
         return True, len(hits) >= 1
 
     name = f"K_{decname.replace('.', '_')}_{tag}"
+    # skeletons on which no hit can occur are pure totality checks: no reachability twin
+    no_hit = decname.startswith("pe_file") or decname.startswith("powershell.") or tag in ("free",)
     return mk_template_ob(globals(), name, tmpl, body_of_data, tier=tier, timeout=timeout,
                           functions=["multidecoder.decoders." + decname],
-                          bound=f"hit contract K of {decname};")
+                          bound=f"hit contract K of {decname};", reach=not no_hit)
 
 
 OBLIGATIONS = []
